@@ -28,7 +28,9 @@ def main() -> int:
     try:
         for pid in pids:
             t0 = time.time()
-            p = subprocess.run([os.path.join(ROOT, "check"), pid, tier], capture_output=True, text=True, cwd=ROOT)
+            env = dict(os.environ)
+            env["VERIF_EVIDENCE_DIR"] = os.path.join(ROOT, "out", "evidence_seed")     # never overwrite the committed evidence
+            p = subprocess.run([os.path.join(ROOT, "check"), pid, tier], capture_output=True, text=True, cwd=ROOT, env=env)
             out = p.stdout + p.stderr
             viol = [ln for ln in out.splitlines() if ln.startswith("VIOLATION")]
             det = [ln for ln in out.splitlines() if ln.startswith("  ")][:3]
